@@ -152,3 +152,95 @@ def spec_to_str(spec):
     if spec[0] == 'idx':
         return '[%d]' % spec[1]
     return '[%s:%s:%s]' % tuple('' if x is None else x for x in spec[1:])
+
+
+# ---- reference evaluation of a parsed path over the nested JSON rendering of one subset -----------------
+class NotEvaluable(Exception):
+    """the path enters a node that has no such sub-nodes (the library raises QueryError): outside the statement"""
+
+
+def _is_replication(node):
+    return node.get('id', '')[:1] == '1' and 'members' in node and 'value' not in node
+
+
+def _select(cands, ident, spec):
+    """candidates with that id, slice applied to the matches, document order kept"""
+    pos = [i for i, c in enumerate(cands) if c.get('id') == ident]
+    chosen = apply_spec(spec, pos)
+    if chosen == 'error':
+        raise NotEvaluable('zero slice step')
+    return sorted(chosen)
+
+
+def evaluate(subset_members, components):
+    """Nested list of values the path designates in one subset.  components: [(sep, id, spec)] with sep in '/' '.'."""
+    root = {'id': 'TEMPLATE', 'members': subset_members}
+    return _eval(root, list(components))
+
+
+def _eval(node, comps):
+    sep, ident, spec = comps[0]
+    rest = comps[1:]
+    if sep == '/':
+        if 'members' not in node or 'value' in node:
+            raise NotEvaluable('%s has no child nodes' % node.get('id'))
+        if _is_replication(node):
+            reps = node['members']
+            if not reps:
+                return []
+            idx = _select(reps[0], ident, spec)
+            if not idx:
+                return []
+            envelope = []
+            for rep in reps:
+                got = _proceed([rep[i] for i in idx], rest)
+                if got:
+                    envelope.append(got)
+            return [envelope] if envelope else []
+        cands = node['members']
+        return _proceed([cands[i] for i in _select(cands, ident, spec)], rest)
+    if sep == '.':
+        cands = []
+        if 'factor' in node:
+            cands.append(node['factor'])
+        elif 'attributes' not in node:
+            raise NotEvaluable('%s has no attribute nodes' % node.get('id'))
+        cands += node.get('attributes', []) or []
+        return _proceed([cands[i] for i in _select(cands, ident, spec)], rest)
+    raise NotEvaluable('descendant steps are not evaluated by the reference')
+
+
+def _proceed(nodes, rest):
+    out = []
+    if not rest:
+        for n in nodes:
+            if 'value' not in n:
+                raise NotEvaluable('valueless node %s' % n.get('id'))
+            out.append(n['value'])
+        return out
+    for n in nodes:
+        out += _eval(n, rest)
+    return out
+
+
+def prune(x):
+    """drop empty lists at every level (the statement does not say whether an empty repetition is an empty list)"""
+    if isinstance(x, list):
+        out = []
+        for y in x:
+            y = prune(y)
+            if isinstance(y, list) and not y:
+                continue
+            out.append(y)
+        return out
+    return x
+
+
+def flatten(x):
+    out = []
+    for y in x:
+        if isinstance(y, list):
+            out.extend(flatten(y))
+        else:
+            out.append(y)
+    return out
